@@ -514,3 +514,23 @@ def check_C08(tier, seed):
     for b in sw["bad"]:
         res.add_mismatch({"suite": "f32-sweep", "class": "roundtrip", "bits": b, "why": "f32 with bits %s does not read back bit-identically from its serialisation" % b})
     return res.finish()
+
+
+def check_C05(tier, seed):
+    res = Result("C05", tier, seed, "model_checking")
+    res.coverage["rule"] = ("values of a generic tree type whose Serialize impl issues every serde call shape (seq/map with and without known length, tuple, struct, the four variant shapes, newtype, "
+                            "Option, unit, map keys of string/integer/bool/char kind, all integer widths, finite and non-finite floats) and strings of every length 0..1100 with special "
+                            "characters at random positions, one third of them placed against an inaccessible page; 9 compact writers, 3 pretty writers and sinks failing after n bytes. "
+                            "TLC checks: output = SerText(Denotes(output)) (well-formed, compact, exact escaping), Denotes(output) matches the value's data model, all writers agree, "
+                            "pretty = PrettyText, failing sink => Err and the bytes written are a prefix")
+    generic_record_validate("C05", res, "sr-record", ["--seed", seed, "--n", 3000 if tier == QUICK else 150000, "--mode", "ser"], "Trace_Ser", {}, "ser")
+    return res.finish()
+
+
+def check_C06(tier, seed):
+    res = Result("C06", tier, seed, "model_checking")
+    res.coverage["rule"] = ("generated well-formed documents (duplicate keys, escapes, all number shapes): t -> DOM -> s -> DOM -> s2; TLC checks that the DOM dump is the denotation of t AND of s "
+                            "(member order, duplicates, exact integers, bit-exact floats), s is compact canonical text, s2 = s, Display = to_string = to_vec, pretty = PrettyText(Denotes(s)), and "
+                            "that raw-number mode reproduces every number literal verbatim; the sort_keys build is checked by a second harness variant in the thorough tier")
+    generic_record_validate("C06", res, "sr-record", ["--seed", seed, "--n", 4000 if tier == QUICK else 200000, "--mode", "rt"], "Trace_Ser", {}, "rt")
+    return res.finish()
